@@ -229,7 +229,10 @@ template <class F> struct scan {
         size_t sl = rd._scanline_length;
         // the caller decides how many rows it pulls: at most SCAN_ROWS (the declared height is not capped by
         // any allocation here, and every row costs a device round trip)
-        for (; it != end && rows < SCAN_ROWS; ++it) {
+        // ... and at most ~4 Mi scanline bytes in total: a legitimately huge declared row must not turn the monitor
+        // into minutes of work per case (time proportional to the declared size is what the property allows)
+        const long max_rows = std::max<long>(2, std::min<long>(SCAN_ROWS, (long)((4u << 20) / (sl ? sl : 1))));
+        for (; it != end && rows < max_rows; ++it) {
             gil::byte_t* row = *it;
             h = c11::hash_raw(row, sl, h);
             ++rows;
@@ -1073,6 +1076,9 @@ static void format_setup() {}
 
 int main(int argc, char** argv) {
     vh::init(argc, argv);
+    // Declared-huge images must end in bad_alloc (an accepted outcome) rather than in minutes of legitimate work:
+    // the quick tier caps single allocations at 32 MiB (8 Mi rgba8 pixels), the thorough tier at 256 MiB.
+    c11::alloc_state().cap = (size_t)(vh::thorough() ? 256 : 32) << 20;
 #ifdef VH_HAVE_SANITIZER
     vh::__sanitizer_set_death_callback(&c11_on_death);
 #endif
